@@ -301,3 +301,12 @@ Proof.
   intros j Hj Hc. apply M. rewrite poly_mask_kernel.
   rewrite (nth_map_in _ 0%nat true) by (now rewrite seq_length). rewrite seq_nth by exact Hj. exact Hc.
 Qed.
+
+(** the ridge parameter handed to the solver is the quotient of the variance components, positive whenever they are (the
+    hypothesis [0 < ridge] of the criterion and normal-equation theorems) *)
+Lemma k_ridge_model varE varU : k_ridge varE varU = varE / varU.
+Proof. reflexivity. Qed.
+Lemma kernel_ridge_positive varE varU : 0 < varE -> 0 < varU -> 0 < k_ridge varE varU.
+Proof.
+  intros HE HU. rewrite k_ridge_model. unfold Qdiv. apply Qmult_lt_0_compat; [exact HE|]. now apply Qinv_lt_0_compat.
+Qed.
